@@ -324,3 +324,25 @@ CHECKS["C19"] = {
     "assumptions": ["the engine's model of Go channels, select, sync.Mutex and sync.WaitGroup is faithful; scheduling points: before and after channel operations, at mutex operations, len(chan), go statements, goroutine exit", "GOMAXPROCS = 4"],
     "outside": "more goroutines / operations / pre-emptions than stated; unbounded schedules; data races on plain memory (no happens-before detector was built); operations that panic followed by further operations",
 }
+
+
+def c12_jobs(tier):
+    jobs = []
+    shapes = [(1, 2, 2), (1, 3, 1), (2, 3, 2), (2, 5, 1)] if tier == "quick" else [(1, 2, 3), (1, 3, 2), (2, 3, 3), (2, 4, 2), (2, 5, 2), (3, 7, 1)]
+    for (c, n, pre) in shapes:
+        j = _mor("VerifC12_Concurrent", c, [n])
+        j.update({"sched": "sym", "preempt": pre, "timeout_s": 600 if tier == "quick" else 3000})
+        jobs.append(j)
+    return jobs
+
+
+CHECKS["C12"] = {
+    "jobs": c12_jobs,
+    "native_rewrite": {"morass/morass.go": "morass"},
+    "functions": ["morass.{New,Push,write,Finalise,Pull} in concurrent mode", "engine temp-file/gob model; channels, go, sync.Mutex under the symbolic scheduler"],
+    "level_text": CHECKS["C19"]["level_text"],
+    "technique": CHECKS["C19"]["technique"],
+    "assumptions": ["engine model of channels/mutexes/goroutines; scheduling points also at every model Encode and Sync (the writer's per-element steps)", "temp files and gob modelled as perfect storage"],
+    "explanation": "workloads of 1-2 full chunks plus a short or empty last chunk; every interleaving of the caller with the background writers within the pre-emption bound; data symbolic; oracle = complete sorted multiset after Finalise; deadlock and crash detection by the engine. Schedule-dependent counterexamples are not replayed natively",
+    "outside": "data races on plain memory (no happens-before detector), more chunks / pre-emptions than stated",
+}
